@@ -45,6 +45,66 @@ void silence_library_stdout()
 	std::freopen("/dev/null", "w", stdout);
 }
 
+// C01 environments: VH_HEAP_NOISE=<seed> fragments the heap at start; VH_WARMUP=1 runs a different
+// simulation before every item (clock advanced, ports consumed, freed heap dirty)
+void heap_noise()
+{
+	char const* e = std::getenv("VH_HEAP_NOISE");
+	if (!e) return;
+	prng r(std::strtoull(e, nullptr, 10));
+	static std::vector<void*> keep;
+	std::vector<void*> tmp;
+	for (int i = 0; i < 6000; ++i)
+	{
+		std::size_t n = 8 + r.below(1500);
+		void* p = std::malloc(n);
+		std::memset(p, int(r.below(256)), n);
+		tmp.push_back(p);
+	}
+	for (std::size_t i = 0; i < tmp.size(); ++i)
+	{
+		if (r.below(2)) std::free(tmp[i]); else keep.push_back(tmp[i]);
+	}
+}
+
+static void warmup()
+{
+	if (!std::getenv("VH_WARMUP")) return;
+	std::FILE* saved = g_out;
+	sim::default_config cfg;
+	sim::simulation s(cfg);
+	asio::io_context a(s, asio::ip::make_address_v4("50.0.0.1")), b(s, asio::ip::make_address_v4("50.0.0.2"));
+	asio::ip::udp::socket u1(a), u2(b);
+	u1.open(asio::ip::udp::v4()); u2.open(asio::ip::udp::v4());
+	u1.bind(asio::ip::udp::endpoint(asio::ip::address_v4::any(), 0));
+	u2.bind(asio::ip::udp::endpoint(asio::ip::address_v4::any(), 0));
+	u1.non_blocking(true);
+	char buf[200] = {1, 2, 3};
+	error_code ec;
+	asio::ip::udp::endpoint from;
+	char rb[300];
+	u2.async_receive_from(asio::buffer(rb), from, [](error_code const&, std::size_t) {});
+	u1.send_to(asio::buffer(buf), u2.local_endpoint(), 0, ec);
+	asio::ip::tcp::acceptor l(b);
+	l.open(asio::ip::tcp::v4()); l.bind(asio::ip::tcp::endpoint(asio::ip::address_v4::any(), 7777)); l.listen(5);
+	asio::ip::tcp::socket acc(b), cl(a);
+	static char big[30000];
+	static char sink[40000];
+	l.async_accept(acc, [&](error_code const& e) {
+		if (e) return;
+		acc.async_read_some(asio::buffer(sink), [](error_code const&, std::size_t) {});
+	});
+	cl.async_connect(asio::ip::tcp::endpoint(asio::ip::make_address_v4("50.0.0.2"), 7777), [&](error_code const& e) {
+		if (e) return;
+		cl.async_write_some(asio::buffer(big), [](error_code const&, std::size_t) {});
+	});
+	asio::high_resolution_timer t1(a), t2(b);
+	t1.expires_after(chrono::seconds(7)); t1.async_wait([](error_code const&) {});
+	t2.expires_after(chrono::milliseconds(1234)); t2.async_wait([](error_code const&) {});
+	s.run();
+	g_out = saved;
+}
+
 int for_each_behaviour(std::string const& path, std::size_t skip
 	, std::function<result(std::size_t, json::value const&)> const& fn)
 {
@@ -65,6 +125,7 @@ int for_each_behaviour(std::string const& path, std::size_t skip
 		}
 		std::fprintf(g_out, "{\"i\":%zu,\"begin\":true}\n", idx);
 		std::fflush(g_out);
+		warmup();
 		result r = fn(idx, v);
 		json::object o = r.extra;
 		o["i"] = idx;
@@ -138,5 +199,6 @@ int main(int argc, char** argv)
 	// wall-clock limit per process (the drivers split work so that no chunk
 	// legitimately needs this long): a hang becomes a non-zero exit
 	if (char const* lim = std::getenv("VH_WALL_LIMIT")) alarm(unsigned(std::atoi(lim)));
+	vh::heap_noise();
 	return it->second(argc - 1, argv + 1);
 }
